@@ -3,7 +3,7 @@
    [spec_holds]: the property's statement evaluated on what gorm was OBSERVED to do (the tree of
    per-call results, the driver operations, the table read back through a fresh connection,
    the returned error / panic, the pool counters) — it never calls the model of the code. *)
-From Verif Require Export Base C04_Model.
+From Verif Require Export Base C04_Model C04_Single.
 Open Scope Z_scope.
 
 Definition ecode_eqb a b :=
@@ -50,7 +50,13 @@ Record case := mk_case {
   c_manual : bool; c_prog : prog; c_extra : list bool; c_stray : list bool; c_cfg : cfg; c_fault : option nat;
   (* observed *)
   o_top : obs; o_extra : list cls; o_stray : list cls; o_table : list Z; o_in_use : Z; o_open_tx : Z;
-  o_ops : list (opkind * bool)
+  o_ops : list (opkind * bool);
+  (* the variadic transaction options of the outermost Transaction / Begin call (0 = nil pointer) and the
+     options the pool's BeginTx received (-1: not observable, the pool is *sql.DB itself) *)
+  c_opts : list Z; o_bopt : Z;
+  (* Some l: the program is not a block but the calls l made one after the other on the pool handle,
+     each write inside the transaction gorm opens for it (o_top = OC true <their results> CNil CNil) *)
+  c_single : option (list scall)
 }.
 
 Definition model_agrees (c : case) : bool :=
@@ -62,7 +68,8 @@ Definition model_agrees (c : case) : bool :=
   && same_set (s_db s) (o_table c)
   && list_eqb op_eqb (rev (s_ops s)) (o_ops c)
   && (fst (pool ref_env (rev (s_txlog s))) =? o_in_use c)
-  && (snd (pool ref_env (rev (s_txlog s))) =? o_open_tx c).
+  && (snd (pool ref_env (rev (s_txlog s))) =? o_open_tx c)
+  && ((o_bopt c =? -1) || (o_bopt c =? begin_opt (c_opts c))).
 
 (* ------------------------------------------------------------------ the property *)
 Definition is_nil (c : cls) := match c with CNil => true | _ => false end.
@@ -189,4 +196,36 @@ Definition spec_holds (c : case) : bool :=
           && usable_cfg (c_nosp (c_cfg c)) (negb (plain_prog (c_prog c))) (o_top c) (o_ops c)
           && extras_ok (c_extra c) (o_extra c))).
 
-Definition check_case (c : case) : N := code_of (model_agrees c) (spec_holds c).
+(* ------------------------------------------------------------------ single calls outside a block *)
+Definition single_agrees (c : case) (l : list scall) : bool :=
+  let '(o, s) := run_singles (c_cfg c) (fault_at (c_fault c)) l (init_st []) in
+  obs_eqb (OC true o CNil CNil) (o_top c)
+  && same_set (s_db s) (o_table c)
+  && list_eqb op_eqb (rev (s_ops s)) (o_ops c)
+  && (fst (pool ref_env (rev (s_txlog s))) =? o_in_use c)
+  && (snd (pool ref_env (rev (s_txlog s))) =? o_open_tx c).
+
+(* the property for one write call (the block gorm puts around it): the write is durable iff the call
+   reported no error; a call reports an error iff a fault hit one of its own driver operations
+   (BEGIN, the statement, COMMIT - a failing ROLLBACK comes on top of a failed statement), and then
+   reports that fault; the transaction is finished and the connection back in the pool *)
+Definition is_fault (c : cls) := match c with CErr e => ecode_eqb (e_code e) EFault | _ => false end.
+Definition single_kept (l : list obs) : tbl :=
+  flat_map (fun o => match o with OW m CNil => [m] | _ => [] end) l.
+Definition countf3 (ops : list (opkind * bool)) : nat := (countf KBegin ops + countf KStmt ops + countf KCommit ops)%nat.
+Definition single_ok (body : list obs) (ops : list (opkind * bool)) (t0 table : tbl) : bool :=
+  same_set table (t0 ++ single_kept body)
+  && forallb is_fault (flat_map stmt_errs body)
+  && Nat.eqb (length (flat_map stmt_errs body)) (countf3 ops).
+Definition single_spec (c : case) : bool :=
+  (o_in_use c =? 0) && (o_open_tx c =? 0)
+  && match o_top c with
+     | OC _ body _ _ => single_ok body (o_ops c) [] (o_table c)
+     | _ => false
+     end.
+
+Definition check_case (c : case) : N :=
+  match c_single c with
+  | Some l => code_of (single_agrees c l) (single_spec c)
+  | None => code_of (model_agrees c) (spec_holds c)
+  end.
